@@ -36,8 +36,10 @@ Definition bt0 : bt := {| txn := TI; copy := false; gout := false; gtxn := false
 
 (** What the property calls clean (SET inside a committed block is excluded by its text:
     "session state the previous client created outside a transaction"). *)
-Definition clean (b : bt) : bool :=
-  tx_eqb (txn b) TI && negb (copy b) && negb (gout b) && negb (prep b).
+Definition clean (cc : bool) (b : bt) : bool :=
+  (* cc = cleanup_server_connections: when the operator switched the cleanup off, only the
+     transaction / COPY part of the property can hold *)
+  tx_eqb (txn b) TI && negb (copy b) && (negb cc || (negb (gout b) && negb (prep b))).
 
 Inductive rtag := RBegin | RCommit | RRollback | RSelect | RSet | RPrepare | RError | RCopyIn | ROther.
 
@@ -99,8 +101,8 @@ Definition mark_bad (l : bel) : bel :=
   {| in_txn := in_txn l; in_copy := in_copy l; need_set := need_set l; need_prep := need_prep l; bad := true |}.
 
 (** Server::is_unclean (cleanup_server_connections = true) and ServerPool::has_broken. *)
-Definition unclean (l : bel) : bool := in_txn l || in_copy l || need_set l || need_prep l.
-Definition has_broken (l : bel) : bool := bad l || unclean l.
+Definition unclean (cc : bool) (l : bel) : bool := in_txn l || in_copy l || (cc && (need_set l || need_prep l)).
+Definition has_broken (cc : bool) (l : bel) : bool := bad l || unclean cc l.
 
 (* ---------------------------------------------------------------- connections, clients, pool *)
 Definition sid := nat.
@@ -116,7 +118,8 @@ Record state := {
   conns : list (sid * conn);     (* live server connections, most recently updated first *)
   clients : list (cid * client);
   maxc : nat;                    (* pool_size *)
-  next : sid
+  next : sid;
+  cc : bool                      (* cleanup_server_connections *)
 }.
 
 Inductive event :=
@@ -141,11 +144,11 @@ Fixpoint first_idle (l : list (sid * conn)) : option sid :=
   end.
 
 Definition set_client (st : state) (c : cid) (v : client) : state :=
-  {| conns := conns st; clients := put c v (clients st); maxc := maxc st; next := next st |}.
+  {| conns := conns st; clients := put c v (clients st); maxc := maxc st; next := next st; cc := cc st |}.
 Definition set_conn (st : state) (s : sid) (v : conn) : state :=
-  {| conns := put s v (conns st); clients := clients st; maxc := maxc st; next := next st |}.
+  {| conns := put s v (conns st); clients := clients st; maxc := maxc st; next := next st; cc := cc st |}.
 Definition drop_conn (st : state) (s : sid) : state :=
-  {| conns := del s (conns st); clients := clients st; maxc := maxc st; next := next st |}.
+  {| conns := del s (conns st); clients := clients st; maxc := maxc st; next := next st; cc := cc st |}.
 
 (** pool.get + bb8: an idle connection, else a new one below max_size, else (after
     connect_timeout) an error. *)
@@ -163,7 +166,7 @@ Definition checkout (st : state) (c : cid) : option (state * sid * list event) :
       if Nat.ltb (length (conns st)) (maxc st) then
         let s := next st in
         Some ({| conns := (s, {| truth := bt0; belief := bel0; loc := Held c |}) :: conns st;
-                 clients := clients st; maxc := maxc st; next := S s |}, s, [CheckedOut s c bt0])
+                 clients := clients st; maxc := maxc st; next := S s; cc := cc st |}, s, [CheckedOut s c bt0])
       else None
   end.
 
@@ -171,7 +174,7 @@ Definition checkout (st : state) (c : cid) : option (state * sid * list event) :
 Definition put_back (st : state) (s : sid) : state * list event :=
   match get s (conns st) with
   | Some k =>
-      if has_broken (belief k) then (drop_conn st s, [ClosedS s])
+      if has_broken (cc st) (belief k) then (drop_conn st s, [ClosedS s])
       else (set_conn st s {| truth := truth k; belief := belief k; loc := Idle |}, [Returned s (truth k)])
   | None => (st, [])
   end.
@@ -184,7 +187,7 @@ Definition reset_truth (b : bt) (rs rp : bool) : bt :=
   {| txn := txn b; copy := copy b; gout := if rs then false else gout b; gtxn := gtxn b;
      gin := if rs then false else gin b; prep := if rp then false else prep b |}.
 
-Definition cleanup (k : conn) (s : sid) : conn * list event :=
+Definition cleanup (c0 : bool) (k : conn) (s : sid) : conn * list event :=
   let l := belief k in let b := truth k in
   if in_copy l then ({| truth := b; belief := mark_bad l; loc := loc k |}, [])
   else
@@ -193,7 +196,7 @@ Definition cleanup (k : conn) (s : sid) : conn * list event :=
     if rb then
       let '(b', t) := bexec b Rollback in (b', on_reply l [t] true (txn b'))
     else (b, l) in
-  let need := need_set l1 || need_prep l1 in
+  let need := c0 && (need_set l1 || need_prep l1) in
   let '(b2, l2) :=
     if need then
       (* inside a failed transaction block the batch is rejected (25P02) and nothing is reset;
@@ -223,7 +226,7 @@ Definition end_task (st : state) (c : cid) (m : bool) : state := set_client st c
 
 (** Release at the end of a transaction (client.rs 1612-1621) and stay connected. *)
 Definition release (st : state) (c : cid) (m : bool) (s : sid) (k : conn) : state * list event :=
-  let '(k1, ev1) := cleanup k s in
+  let '(k1, ev1) := cleanup (cc st) k s in
   let st1 := set_conn st s k1 in
   let '(st2, ev2) := put_back st1 s in
   (set_client st2 c {| cst := Outer; smode := m |}, ev1 ++ ev2).
@@ -246,7 +249,7 @@ Definition exit_holding (st : state) (c : cid) (m : bool) (s : sid) : state * li
 
 (** Task ends while holding s WITH cleanup first ('X', client read error in the loop). *)
 Definition exit_cleanup (st : state) (c : cid) (m : bool) (s : sid) (k : conn) : state * list event :=
-  let '(k1, ev1) := cleanup k s in
+  let '(k1, ev1) := cleanup (cc st) k s in
   let '(st1, ev2) := put_back (set_conn st s k1) s in
   (end_task st1 c m, ev1 ++ ev2 ++ [TaskEnd c]).
 
@@ -386,7 +389,7 @@ Definition step (st : state) (o : op) : state * list event :=
       end
   end.
 
-Definition init (n : nat) : state := {| conns := []; clients := []; maxc := n; next := 0 |}.
+Definition init (n : nat) (c0 : bool) : state := {| conns := []; clients := []; maxc := n; next := 0; cc := c0 |}.
 
 Fixpoint run (st : state) (ops : list op) : state * list event :=
   match ops with
@@ -401,7 +404,7 @@ Fixpoint run (st : state) (ops : list op) : state * list event :=
     - a connection goes back to the pool only with a clean backend.
     This is C01 (exclusive, whole transaction) + C02 (clean hand-off) on the event log; the
     same predicate is evaluated on the implementation's log by the harness. *)
-Fixpoint monitor (h : list (sid * option cid)) (evs : list event) : option (list (sid * option cid)) :=
+Fixpoint monitor (c0 : bool) (h : list (sid * option cid)) (evs : list event) : option (list (sid * option cid)) :=
   match evs with
   | [] => Some h
   | e :: r =>
@@ -409,21 +412,21 @@ Fixpoint monitor (h : list (sid * option cid)) (evs : list event) : option (list
       | CheckedOut s c b =>
           match get s h with
           | Some (Some _) => None
-          | _ => if clean b then monitor (put s (Some c) h) r else None
+          | _ => if clean c0 b then monitor c0 (put s (Some c) h) r else None
           end
       | Exec s c _ =>
           match get s h with
-          | Some (Some c') => if Nat.eqb c c' then monitor h r else None
+          | Some (Some c') => if Nat.eqb c c' then monitor c0 h r else None
           | _ => None
           end
-      | Cleanup s _ _ _ => match get s h with Some (Some _) => monitor h r | _ => None end
+      | Cleanup s _ _ _ => match get s h with Some (Some _) => monitor c0 h r | _ => None end
       | Returned s b =>
           match get s h with
-          | Some (Some _) => if clean b then monitor (put s None h) r else None
+          | Some (Some _) => if clean c0 b then monitor c0 (put s None h) r else None
           | _ => None
           end
-      | ClosedS s => monitor (del s h) r
-      | PoolError _ | TaskEnd _ => monitor h r
+      | ClosedS s => monitor c0 (del s h) r
+      | PoolError _ | TaskEnd _ => monitor c0 h r
       end
   end.
 
